@@ -403,6 +403,14 @@ def run(ctx):
           ("dot", ("cross", ("v", 0), ("v", 1)), ("v", 2)), ("norm", ("sc", "k", ("v", 1)))]
     d2 += [("smul", a, b) for a, b in itertools.product(s0, repeat=2)] + [("sadd", a, b) for a, b in itertools.product(s0, repeat=2)]
     d2 += [("sc", s, x) for s in ("k", -1) for x in v1]
+    # linear combinations with scalar coefficients, shared (k a + k b) or not (k a + l b), under norm / dot / cross
+    for s1, s2 in itertools.product(("k", "l", -1, 2), repeat=2):
+        for u, v in itertools.permutations(v0[:3], 2):
+            x = ("add", ("sc", s1, u), ("sc", s2, v))
+            d2 += [("dot", x, ("v", 3)), ("cross", ("v", 3), x)]
+            if (s1, s2) in (("k", "k"), ("k", "l"), (-1, -1), (2, 2), ("k", -1)) and (u, v) in ((("v", 0), ("v", 1)), (("v", 2), ("v", 0))):
+                d2 += [("norm", x), ("norm", ("sub", ("sc", s1, u), ("sc", s2, v)))]       # norms are the expensive queries (square roots)
+    d2 = list(dict.fromkeys(d2))
     full = d1 + d2
     if not thorough:
         # quick: depth<=1 exhaustive in both modes, depth 2 exhaustive in auto mode; doit mode on a seed-chosen third
